@@ -252,11 +252,12 @@ class CharVal(Atom):
 class Ptr(Atom):
     """A3/A4: scalar through a pointer or reference, intent in / out / inout."""
 
-    def __init__(self, t, intent, ref=False):
-        Atom.__init__(self, "%s_%s_%s" % ("ref" if ref else "ptr", intent, t.id))
+    def __init__(self, t, intent, ref=False, bare=False):
+        Atom.__init__(self, "%s_%s_%s%s" % ("ref" if ref else "ptr", intent, t.id, "_bare" if bare else ""))
         self.t = t
         self.intent = intent
         self.ref = ref
+        self.bare = bare  # no +intent written: a non-const pointer / reference is intent(inout) by default
         if ref:
             self.langs = ("cxx",)
 
@@ -264,6 +265,8 @@ class Ptr(Atom):
         sym = "&" if self.ref else "*"
         if self.intent == "in":
             return ["const %s %s%s" % (self.t.cname, sym, n)]
+        if self.bare:
+            return ["%s %s%s" % (self.t.cname, sym, n)]
         return ["%s %s%s +intent(%s)" % (self.t.cname, sym, n, self.intent)]
 
     def cparams(self, n, lang):
@@ -555,12 +558,15 @@ class StrOut(Atom):
     langs = ("cxx",)
     TEXT = "hello"
 
-    def __init__(self, intent, ptr=False):
-        Atom.__init__(self, "str_%s%s" % (intent, "_ptr" if ptr else ""))
+    def __init__(self, intent, ptr=False, bare=False):
+        Atom.__init__(self, "str_%s%s%s" % (intent, "_ptr" if ptr else "", "_bare" if bare else ""))
         self.intent = intent
         self.ptr = ptr
+        self.bare = bare  # no +intent written: defaults to intent(inout)
 
     def decl(self, n):
+        if self.bare:
+            return ["std::string %s%s" % ("*" if self.ptr else "&", n)]
         return ["std::string %s%s +intent(%s)" % ("*" if self.ptr else "&", n, self.intent)]
 
     def cparams(self, n, lang):
@@ -597,12 +603,15 @@ class Vec(Atom):
     langs = ("cxx",)
     py = True
 
-    def __init__(self, t, intent):
-        Atom.__init__(self, "vec_%s_%s" % (intent, t.id))
+    def __init__(self, t, intent, bare=False):
+        Atom.__init__(self, "vec_%s_%s%s" % (intent, t.id, "_bare" if bare else ""))
         self.t = t
         self.intent = intent
+        self.bare = bare  # no +intent written: defaults to intent(inout)
 
     def decl(self, n):
+        if self.bare:
+            return ["std::vector<%s> &%s" % (self.t.cname, n)]
         if self.intent == "in":
             return ["const std::vector<%s> &%s" % (self.t.cname, n)]
         if self.intent == "alloc":
@@ -997,11 +1006,14 @@ class StrRes(Res):
     langs = ("cxx",)
     lua = True
 
-    def __init__(self, form, text):
-        Res.__init__(self, "ret_str_%s_%d" % (form, len(text)))
+    def __init__(self, form, text, flen=None):
+        Res.__init__(self, "ret_str_%s_%d%s" % (form, len(text), "_len%d" % flen if flen else ""))
         self.form = form
         self.text = text
-        if form == "cptr_caller":
+        self.flen = flen  # +len(n): a fixed-length Fortran result, blank padded / truncated
+        if flen:
+            self.attrs = " +len(%d)" % flen
+        elif form == "cptr_caller":
             self.attrs = " +owner(caller)"
         elif form == "cptr_library":
             self.attrs = " +owner(library)"
@@ -1026,6 +1038,8 @@ class StrRes(Res):
         return ['return new std::string("%s");' % self.text]
 
     def observe(self, extra=None):
+        if self.flen:
+            return [rs(self.text[: self.flen].ljust(self.flen))]
         return [rs(self.text)]
 
 
@@ -1378,6 +1392,9 @@ def core_args(level=1):
     A += [StrIn("cref"), StrIn("val"), StrIn("cptr"), StrOut("out"), StrOut("inout"), StrOut("inout", ptr=True)]
     for t in ("int", "double"):
         A += [Vec(T[t], "in"), Vec(T[t], "out"), Vec(T[t], "inout"), Vec(T[t], "alloc")]
+    # non-const pointers and references with no intent written (input.rst: the default is inout)
+    A += [Ptr(T["int"], "inout", bare=True), Ptr(T["double"], "inout", ref=True, bare=True), StrOut("inout", bare=True), StrOut("inout", ptr=True, bare=True),
+          Vec(T["int"], "inout", bare=True)]
     A += [EnumVal(), ClsArg("ptr"), ClsArg("cref")]
     A += [StructArg(f) for f in ("val", "cptr", "ptr_inout", "ptr_out", "ref_inout", "cref")]
     A += [PtrPtrOut(T["int"], "fixed"), PtrPtrOut(T["int"], "dyn"), PtrPtrOut(T["double"], "dyn"), VoidPtr(), StrArrIn()]
